@@ -37,6 +37,9 @@ RULE = (
     "privacy password/plug-in on the live client and repeats all monitors, one in ten uses a "
     "privacy password WITHOUT an authentication key (nothing may leave in clear). Distinct by (hash, plug-in, op, key/engine/ctx "
     "lengths)."
+    " One case in seven: the discovery report names another context engine than the authorita"
+    "tive engine. Deterministic triples of (password, engine id) pairs with equal concatenati"
+    "ons (eight separators) run in one process."
 )
 ASSUMPTIONS = [
     "the only thing assumed about a privacy plug-in is decrypt(encrypt(x)) == x; all harness plug-ins satisfy it exactly",
